@@ -18,8 +18,8 @@ ONLY_BUF = ['IFF'] * 4 + ['LIFF', 'RIFF'] * 2 + list(refsem.NARY) + ['GT', 'LT',
 ATOMS = [['RRG', False], ['RRG', True], ['MU'], ['MDG'], ['MEG']]
 
 
-def pipelines(max_depth=2):
-    atom = st.sampled_from(ATOMS)
+def pipelines(max_depth=2, user_passes=False):
+    atom = st.sampled_from(ATOMS + ([['NEG'], ['NEG']] if user_passes else []))
 
     # 'wrap': a pass of a user of the library (a Transformer subclass that itself only copies) which declares library
     # passes to run before and after it - those bring their own implied passes along (nested dependencies).
@@ -47,25 +47,25 @@ def pipelines(max_depth=2):
 
 
 @st.composite
-def top_specs(draw):
+def top_specs(draw, user_passes=False):
     kind = draw(st.sampled_from(['atom', 'atom', 'pipeline', 'pipeline', 'list', 'cleanup', 'repeat']))
     if kind == 'atom':
         return draw(st.sampled_from(ATOMS))
     if kind == 'pipeline':
-        return draw(pipelines())
+        return draw(pipelines(user_passes=user_passes))
     if kind == 'list':
-        return ['list', draw(st.lists(pipelines(), min_size=1, max_size=4))]
+        return ['list', draw(st.lists(pipelines(user_passes=user_passes), min_size=1, max_size=4))]
     if kind == 'repeat':
-        a = draw(st.sampled_from(ATOMS))
+        a = draw(st.sampled_from(ATOMS + ([['NEG'], ['NEG'], ['NEG']] if user_passes else [])))
         b = draw(st.sampled_from(ATOMS))
         return ['list', [a, a, b, b, a]] if draw(st.booleans()) else ['pipe', ['pipe', a, a], ['pipe', b, a]]
     return ['cleanup', draw(st.booleans())]
 
 
 @st.composite
-def cases(draw, tier):
+def cases(draw, tier, user_passes=False):
     big = tier == 'thorough'
-    spec = draw(top_specs())
+    spec = draw(top_specs(user_passes=user_passes))
     if spec == ['MU']:
         types = draw(st.sampled_from([ONLY_NEG, ONLY_BUF, ONLY_NEG, ONLY_BUF, UNARY_HEAVY]))
     else:
@@ -135,13 +135,15 @@ def make_atom(a):
         return m['RRG'](allow_inputs_removal=bool(a[1]))
     if a[0] == 'COPY':
         return through_class()()
+    if a[0] == 'NEG':
+        return negate_class()()
     return m[a[0]]()
 
 
 def build_transformer(spec):
     """spec -> Transformer object (for atom / pipe / comp)."""
     m = _mods()
-    if spec[0] in ('RRG', 'MU', 'MDG', 'MEG'):
+    if spec[0] in ('RRG', 'MU', 'MDG', 'MEG', 'NEG'):
         return make_atom(spec)
     if spec[0] == 'pipe':
         return build_transformer(spec[1]) | build_transformer(spec[2])
@@ -153,6 +155,34 @@ def build_transformer(spec):
 
 
 _THROUGH: list = []
+_NEGATE: list = []
+
+
+def negate_class():
+    """A pass of a user of the library that is visibly NOT idempotent and declares nothing: every output is replaced by
+    a fresh negation of itself (twice restores the function, with two more gates per output)."""
+    if not _NEGATE:
+        m = _mods()
+        core = cirbo_core()
+
+        class NegateOutputs(m['Transformer']):
+            def _transform(self, circuit):
+                res = copy.copy(circuit)
+                outs = []
+                made = {}
+                for o in res.outputs:
+                    if o not in made:
+                        lab = '~' + o
+                        while res.has_gate(lab):
+                            lab = '~' + lab
+                        res.emplace_gate(lab, core.gate.NOT, (o,))
+                        made[o] = lab
+                    outs.append(made[o])
+                res.set_outputs(outs)
+                return res
+
+        _NEGATE.append(NegateOutputs)
+    return _NEGATE[0]
 
 
 def through_class():
@@ -171,7 +201,7 @@ def through_class():
 
 def atoms_of(spec) -> list:
     """Constituent atomic passes, in application order."""
-    if spec[0] in ('RRG', 'MU', 'MDG', 'MEG', 'COPY'):
+    if spec[0] in ('RRG', 'MU', 'MDG', 'MEG', 'COPY', 'NEG'):
         return [spec]
     if spec[0] == 'pipe':
         return atoms_of(spec[1]) + atoms_of(spec[2])
